@@ -167,6 +167,54 @@ func refIDom(adj [][]int, root int) (idom []int, dom [][]bool, reach []bool) {
 		}
 	}
 	idom = make([]int, n)
+	if n > 12 {
+		// Large graphs: the dominators of v form a chain, so the immediate dominator
+		// is the strict dominator with the most dominators of its own (O(n^2); agrees
+		// with the literal definition below on every small graph, checked on each run).
+		cnt := make([]int, n)
+		for d := 0; d < n; d++ {
+			for v := 0; v < n; v++ {
+				if dom[d][v] {
+					cnt[v]++
+				}
+			}
+		}
+		for v := 0; v < n; v++ {
+			idom[v] = -1
+			if !reach[v] || v == root {
+				continue
+			}
+			best := -1
+			for d := 0; d < n; d++ {
+				if d != v && dom[d][v] && (best < 0 || cnt[d] > cnt[best]) {
+					best = d
+				}
+			}
+			idom[v] = best
+		}
+		return
+	}
+	cntSmall := make([]int, n)
+	for d := 0; d < n; d++ {
+		for v := 0; v < n; v++ {
+			if dom[d][v] {
+				cntSmall[v]++
+			}
+		}
+	}
+	defer func() {
+		// conformance of the chain-depth shortcut with the literal definition
+		for v := 0; v < n; v++ {
+			if idom[v] < 0 {
+				continue
+			}
+			for d := 0; d < n; d++ {
+				if d != v && dom[d][v] && cntSmall[d] > cntSmall[idom[v]] {
+					panic("refIDom: chain-depth shortcut disagrees with the definition")
+				}
+			}
+		}
+	}()
 	for v := 0; v < n; v++ {
 		idom[v] = -1
 		if !reach[v] || v == root {
